@@ -131,6 +131,7 @@ open Lean Elab Command in
       if let .thmInfo _ := ci then
         if name.isInternal then continue
         if !(`Props).isPrefixOf name then continue
+        if name.components.any (fun c => (toString c).startsWith "eq_" || (toString c).startsWith "match_" || (toString c).startsWith "proof_" || (toString c).startsWith "_") then continue
         let axs ← collectAxioms name
         let ty ← liftTermElabM (do let f ← Meta.ppExpr ci.type; pure f.pretty)
         let ty1 := (ty.replace "\\n" " ")
